@@ -3,6 +3,7 @@
 // objects, for each of the nine block tables and each way of copying a block.
 //
 //   tbl_driver run <histories.ndjson> <shard> <nshards> <out.ndjson>
+//   tbl_driver runblk <histories.ndjson> <shard> <nshards> <out.ndjson>   whole blocks: items, copies, reads (BlockValue.tla)
 //
 // History: {"ops":[{"op":"add","t":slot,"v":id},{"op":"clear","t":..},
 //                  {"op":"copy","src":..,"dst":..},{"op":"destroy","t":..}]}
@@ -196,6 +197,166 @@ static void run_history(const json& h, const std::string& tab, const std::string
     }
 }
 
+// ---------------------------------------------------------------------------------------------
+// whole-block value semantics (mode runblk, spec/BlockValue.tla, spec/TraceBlockValue.tla)
+// ---------------------------------------------------------------------------------------------
+static std::string blk_ip(int id) { return std::string({static_cast<char>(10), 0, static_cast<char>(id / 256), static_cast<char>(id % 256)}); }
+static std::string blk_name(int id) { return std::string(1, static_cast<char>(2)) + "n" + std::to_string(id % 10) + std::string(1, '\0'); }
+static GenericQueryResponse mk_gqr(int id) {
+    GenericQueryResponse g;
+    g.ts = Timestamp(100 + id, 0);
+    g.transaction_id = id;
+    g.client_port = 1000 + id;
+    g.client_ip = blk_ip(id % 2);
+    g.server_ip = blk_ip(7);
+    g.query_name = blk_name(id % 3);
+    ClassType ct; ct.type = 1 + id % 2; ct.class_ = 1;
+    g.query_classtype = ct;
+    g.query_opcode = id % 2;
+    if (id % 2) g.response_rcode = 3;
+    return g;
+}
+static bool same_gqr(GenericQueryResponse& g, int id) {
+    GenericQueryResponse w = mk_gqr(id);
+    return g.client_port == w.client_port && g.client_ip == w.client_ip && g.server_ip == w.server_ip &&
+           g.query_name == w.query_name && g.query_classtype && *g.query_classtype == *w.query_classtype &&
+           g.query_opcode == w.query_opcode && g.response_rcode == w.response_rcode &&
+           g.ts && g.ts->m_secs == w.ts->m_secs;
+}
+static GenericAddressEventCount mk_gaec(int id) {
+    GenericAddressEventCount a;
+    a.ae_type = (id % 2) ? AddressEventTypeValues::tcp_reset : AddressEventTypeValues::icmp_dest_unreachable;
+    if (id % 3 == 0) a.ae_code = id % 5;
+    a.ip_address = blk_ip(100 + id);
+    return a;
+}
+static int id_of_gaec(GenericAddressEventCount& a, bool& ok) {
+    int id = -1;
+    if (a.ip_address.size() == 4) id = (static_cast<unsigned char>(a.ip_address[2]) * 256 + static_cast<unsigned char>(a.ip_address[3])) - 100;
+    if (id < 0) { ok = false; return -1; }
+    GenericAddressEventCount w = mk_gaec(id);
+    ok = a.ae_type == w.ae_type && a.ae_code == w.ae_code && a.ae_transport_flags == w.ae_transport_flags && a.ip_address == w.ip_address;
+    return id;
+}
+static GenericMalformedMessage mk_gmm(int id) {
+    GenericMalformedMessage m;
+    m.ts = Timestamp(200 + id, 0);
+    m.client_port = 2000 + id;
+    m.client_ip = blk_ip(id % 2);
+    m.mm_payload = mk_string(id % 4);
+    if (id % 2) m.server_port = 53;
+    return m;
+}
+static bool same_gmm(GenericMalformedMessage& g, int id) {
+    GenericMalformedMessage w = mk_gmm(id);
+    return g.client_port == w.client_port && g.client_ip == w.client_ip && g.mm_payload == w.mm_payload &&
+           g.server_port == w.server_port && g.ts && g.ts->m_secs == w.ts->m_secs;
+}
+static std::size_t kind_count(CdnsBlock& b, const std::string& k) {
+    return k == "qr" ? b.get_qr_count() : k == "aec" ? b.get_aec_count() : b.get_mm_count();
+}
+static std::string blk_path() { return g_tmpdir + "/blk_" + std::to_string(getpid()); }
+static void write_out(CdnsBlock& src, const std::string& path) {
+    FilePreamble fp;
+    CdnsExporter ex(fp, path, CborOutputCompression::NO_COMPRESSION);
+    ex.write_block(src);
+}
+// one read_generic_<k>() call, logged
+static json read_one(CdnsBlockRead& b, const std::string& k) {
+    bool end = false, ok = true; int v = -1; uint64_t c = 0;
+    if (k == "qr") {
+        GenericQueryResponse g = b.read_generic_qr(end);
+        if (!end) { v = g.transaction_id ? *g.transaction_id : -1; ok = v >= 0 && same_gqr(g, v); }
+    } else if (k == "aec") {
+        GenericAddressEventCount a = b.read_generic_aec(end);
+        if (!end) { v = id_of_gaec(a, ok); c = a.ae_count; }
+    } else {
+        GenericMalformedMessage g = b.read_generic_mm(end);
+        if (!end) { v = g.client_port ? *g.client_port - 2000 : -1; ok = v >= 0 && same_gmm(g, v); }
+    }
+    return {{"end", end}, {"v", v}, {"c", c}, {"ok", ok}};
+}
+// the block as the real exporter writes it and the real reader reads it
+static json serialised(CdnsBlock& src, int t) {
+    json q = json::array(), a = json::array(), m = json::array();
+    bool good = true;
+    if (src.get_item_count() > 0) {
+        std::string path = blk_path();
+        write_out(src, path);
+        std::ifstream in(path, std::ios::binary);
+        CdnsReader rd(in);
+        bool eof = false;
+        CdnsBlockRead blk = rd.read_block(eof);
+        for (const char* k : {"qr", "aec", "mm"}) {
+            for (;;) {
+                json r = read_one(blk, k);
+                if (r["end"]) break;
+                if (!r["ok"]) good = false;
+                if (std::string(k) == "qr") q.push_back(r["v"]);
+                else if (std::string(k) == "mm") m.push_back(r["v"]);
+                else a.push_back(json::array({r["v"], r["c"]}));
+            }
+        }
+        unlink(path.c_str());
+    }
+    return {{"e", "S"}, {"t", t}, {"q", q}, {"a", a}, {"m", m}, {"ok", good}};
+}
+
+static void run_blk_history(const json& h)
+{
+    vh::trace().emit({{"e", "R"}});
+    std::map<int, std::shared_ptr<CdnsBlockRead>> slots;
+    slots[1] = std::make_shared<CdnsBlockRead>();
+    for (auto& o : h["ops"]) {
+        std::string op = o["op"];
+        if (op == "item") {
+            int t = o["t"], v = o["v"]; std::string k = o["k"];
+            CdnsBlock& b = *slots[t];
+            if (k == "qr") b.add_question_response_record(mk_gqr(v));
+            else if (k == "aec") b.add_address_event_count(mk_gaec(v));
+            else b.add_malformed_message(mk_gmm(v));
+            vh::trace().emit({{"e", "I"}, {"t", t}, {"k", k}, {"v", v}, {"n", kind_count(b, k)}});
+        } else if (op == "clear") {
+            int t = o["t"];
+            slots[t]->clear();
+            vh::trace().emit({{"e", "CL"}, {"t", t}});
+        } else if (op == "destroy") {
+            int t = o["t"];
+            slots[t].reset();
+            vh::trace().emit({{"e", "DS"}, {"t", t}});
+        } else if (op == "copy") {
+            int s = o["src"], d = o["dst"]; std::string how = o["how"];
+            CdnsBlockRead& src = *slots[s];
+            if (how == "cctor") slots[d] = std::shared_ptr<CdnsBlockRead>(new CdnsBlockRead(src));
+            else if (how == "mctor") slots[d] = std::shared_ptr<CdnsBlockRead>(new CdnsBlockRead(std::move(src)));
+            else if (how == "cassign") *slots[d] = src;
+            else if (how == "massign") *slots[d] = std::move(src);
+            else {
+                std::string path = blk_path();
+                write_out(src, path);
+                std::ifstream in(path, std::ios::binary);
+                CdnsReader rd(in);
+                bool eof = false;
+                if (how == "rctor") slots[d] = std::shared_ptr<CdnsBlockRead>(new CdnsBlockRead(rd.read_block(eof)));
+                else *slots[d] = rd.read_block(eof);
+                unlink(path.c_str());
+            }
+            CdnsBlock& db = *slots[d];
+            vh::trace().emit({{"e", "CP"}, {"src", s}, {"dst", d}, {"how", how}, {"foreign", foreign(db)},
+                              {"counts", json::array({db.get_qr_count(), db.get_aec_count(), db.get_mm_count()})}});
+        } else if (op == "read") {
+            int t = o["t"]; std::string k = o["k"];
+            json r = read_one(*slots[t], k);
+            r["e"] = "RD"; r["t"] = t; r["k"] = k;
+            vh::trace().emit(r);
+        } else if (op == "ser") {
+            int t = o["t"];
+            vh::trace().emit(serialised(*slots[t], t));
+        }
+    }
+    for (auto& kv : slots) if (kv.second) vh::trace().emit(serialised(*kv.second, kv.first));
+}
+
 int main(int argc, char** argv)
 {
     const char* td = getenv("VERIF_TMP");
@@ -224,6 +385,18 @@ int main(int argc, char** argv)
                     }
                 }
             }
+        }
+    } else if (argc == 6 && std::string(argv[1]) == "runblk") {
+        unsigned shard = atoi(argv[3]), nshards = atoi(argv[4]);
+        vh::trace().open(argv[5]);
+        vh::install_crash_handlers();
+        std::ifstream in(argv[2]);
+        std::string line;
+        uint64_t job = 0;
+        while (std::getline(in, line)) {
+            if (line.empty()) continue;
+            if ((job++ % nshards) != shard) continue;
+            run_blk_history(json::parse(line));
         }
     } else {
         fprintf(stderr, "usage: tbl_driver run <histories> <shard> <nshards> <out>\n");
